@@ -33,8 +33,15 @@ RULE = ("BFS over histories of: application write on either side (direct, or fro
         "write mode, start from scratch or from the established connection.  non-trivial = distinct canonical states in which a "
         "write is buffered waiting for the handshake, a partial record sits in an engine, a producer is paused, or exactly one "
         "close_notify has been sent")
-BOUNDS = {"quick": "<= 2 writes per side (3-byte chunks), depth 10 from scratch / 9 from the established connection",
-          "thorough": "<= 2 writes per side, depth 13 from scratch / 12 from the established connection"}
+BOUNDS = {"quick": "<= 2 writes per side (3-byte chunks). Model-engine BFS depth (from scratch / from the established connection): "
+                   "10 / 9 with record-boundary cuts, 8 / 7 with first-byte + first-half cuts (one level less with producers on "
+                   "both sides); engines 1.3+SysCallError-EOF (5 write-mode pairs) and 1.2+Error-EOF (3 pairs); 2-byte record "
+                   "fragments; 40000-byte Certificate flight depth 7. Model-vs-libssl conformance BFS depth 10 / 6. Real-OpenSSL "
+                   "re-execution of all model histories to depth 8 / 7",
+          "thorough": "<= 2 writes per side. Model-engine BFS depth 12 / 11 (record cuts), 9 / 8 (byte + half cuts), 8 / 7 (all four "
+                      "cuts), one level less with producers on both sides; all 9 write-mode pairs for 1.3+SysCallError and "
+                      "1.2+Error, direct/direct for the two other EOF flavours; conformance depth 12 / 8; real-OpenSSL "
+                      "re-execution to depth 9 / 8"}
 ASSUMPTIONS = [
     "trusted base: the model TLS engine in vendor/openssl_stub/OpenSSL/SSL.py stands in for pyOpenSSL+OpenSSL (memory BIOs, "
     "WantReadError / ZeroReturnError / SysCallError, SSL_shutdown and handshake semantics transcribed from OpenSSL 1.1.1/3.x); "
@@ -601,9 +608,19 @@ CUTS = {"rec": ("rec",), "bytes": ("one", "half"), "mixed": ("one", "half", "rec
 # depth per (tier, cut menu, start)
 DEPTH = {
     "quick": {("rec", "fresh"): 10, ("rec", "est"): 9, ("bytes", "fresh"): 8, ("bytes", "est"): 7},
-    "thorough": {("rec", "fresh"): 13, ("rec", "est"): 12, ("bytes", "fresh"): 10, ("bytes", "est"): 9,
-                 ("mixed", "fresh"): 9, ("mixed", "est"): 8},
+    "thorough": {("rec", "fresh"): 12, ("rec", "est"): 11, ("bytes", "fresh"): 9, ("bytes", "est"): 8,
+                 ("mixed", "fresh"): 8, ("mixed", "est"): 7},
 }
+
+
+def _depth(tier, cfg):
+    d = DEPTH[tier][(cfg["menu"], cfg["start"])]
+    # two producers roughly double the branching: one level less keeps shards of similar cost
+    if sum(m != "direct" for m in cfg["modes"]) == 2 and (tier == "thorough" or cfg["start"] == "fresh"):
+        d -= 1
+    return d
+
+
 _ALL9 = [(a, b) for a in MODES for b in MODES]
 
 
@@ -615,13 +632,16 @@ def configs(tier):
                 (("1.2", "ssl"), [("direct", "direct"), ("push", "pull"), ("pull", "push")])]
         menus = ("rec", "bytes")
     else:
-        plan = [(e, _ALL9) for e in (("1.3", "syscall"), ("1.2", "ssl"), ("1.3", "ssl"), ("1.2", "syscall"))]
+        plan = [(("1.3", "syscall"), _ALL9), (("1.2", "ssl"), _ALL9),
+                (("1.3", "ssl"), [("direct", "direct")]), (("1.2", "syscall"), [("direct", "direct")])]
         menus = ("rec", "bytes", "mixed")
     for (version, eof), modes in plan:
         for m in modes:
             for start in ("fresh", "est"):
                 for menu in menus:
-                    out.append({"version": version, "eof": eof, "modes": list(m), "start": start, "menu": menu})
+                    c = {"version": version, "eof": eof, "modes": list(m), "start": start, "menu": menu}
+                    c["depth"] = _depth(tier, c)
+                    out.append(c)
     # a server Certificate message of 40000 bytes: the server's second flight exceeds 2**15 bytes
     for (version, eof), _m in plan[:2]:
         out.append({"version": version, "eof": eof, "modes": ["direct", "direct"], "start": "fresh", "menu": "rec",
@@ -629,19 +649,23 @@ def configs(tier):
     # small record fragments: send() consumes 2 of the 3 bytes per call (partial-write loop in _write)
     for (version, eof), _m in plan[:2]:
         for start in ("fresh", "est"):
-            out.append({"version": version, "eof": eof, "modes": ["direct", "direct"], "start": start, "menu": "rec", "frag": 2})
+            c = {"version": version, "eof": eof, "modes": ["direct", "direct"], "start": start, "menu": "rec", "frag": 2}
+            c["depth"] = _depth(tier, c)
+            out.append(c)
     # trusted base: model engine vs the local libssl (cffi), BFS over API call sequences
     cd = {"fresh": 10, "est": 6} if tier == "quick" else {"fresh": 12, "est": 8}
     for version in ("1.3", "1.2"):
         for start in ("fresh", "est"):
             out.append({"kind": "conf", "version": version, "start": start, "depth": cd[start]})
     # the real tls.py on REAL OpenSSL: re-execution of every history that reaches a distinct model state
-    rd = {"fresh": 8, "est": 7} if tier == "quick" else {"fresh": 10, "est": 9}
-    rmodes = [("direct", "direct"), ("push", "pull"), ("pull", "push")] if tier == "quick" else _ALL9
+    rd = {"fresh": 8, "est": 7} if tier == "quick" else {"fresh": 9, "est": 8}
+    rmodes = [("direct", "direct"), ("push", "pull"), ("pull", "push")]
+    if tier != "quick":
+        rmodes += [("push", "push"), ("pull", "pull")]
     for version in ("1.3", "1.2"):
         for m in rmodes:
             for start in ("fresh", "est"):
-                d = rd[start] - (0 if m == ("direct", "direct") or tier != "quick" else 1)
+                d = rd[start] - (0 if m == ("direct", "direct") else 1)
                 out.append({"kind": "real", "engine": "real", "version": version, "eof": "ssl", "modes": list(m),
                             "start": start, "menu": "rec", "depth": d})
         out.append({"kind": "real", "engine": "real", "version": version, "eof": "ssl", "modes": ["direct", "direct"],
@@ -761,7 +785,7 @@ def run_shard(shard, tier, seed):
         return _run_real(cfg, tier, seed)
     stats = Stats()
     cfgkey = repr(sorted(cfg.items()))
-    depth = cfg.get("depth") or DEPTH[tier][(cfg["menu"], cfg["start"])]
+    depth = cfg.get("depth") or _depth(tier, cfg)
 
     def on_state(st, hist):
         _observe(stats, cfgkey, st)
